@@ -112,7 +112,11 @@ pub fn decode(bytes: &[u8], tier: Tier) -> FaultCase {
         }
         _ => (0, FaultKind::CancelQuery),
     };
-    let sibling = if sib < 90 { Some(((usize::from(sib) * n) / 90) as u32) } else { None };
+    let sibling = if sib < 90 {
+        Some(case.prog.queryable(((usize::from(sib) * n) / 90) as u32))
+    } else {
+        None
+    };
     FaultCase { case, use_b, step, kind, sibling, tape: sched }
 }
 
@@ -347,12 +351,12 @@ async fn run_fault<B: Backend>(
         // the engine must stay fully usable: every node, then an edit and a
         // re-query, and (persistent backend) a clean restart in between
         let n = prog.nodes.len() as u32;
-        for y in 0..n {
+        for y in (0..n).filter(|y| !prog.is_partial(*y)) {
             r.step(&Step::Query(y)).await;
         }
         if r.backend.persistent() {
             r.step(&Step::Restart).await;
-            for y in (0..n).rev() {
+            for y in (0..n).rev().filter(|y| !prog.is_partial(*y)) {
                 r.step(&Step::Query(y)).await;
             }
         }
@@ -363,7 +367,7 @@ async fn run_fault<B: Backend>(
             .map(|i| SessOp::Update(*i, 1))
             .collect();
         r.step(&Step::Session { ops, by_drop: false }).await;
-        for y in 0..n {
+        for y in (0..n).filter(|y| !prog.is_partial(*y)) {
             r.step(&Step::Query(y)).await;
         }
         if let Some(p) = foreign_panics(false).first() {
